@@ -211,5 +211,6 @@ class RecordManager:
         try:
             self.listeners.remove(listener)
             self.zc.async_notify_all()
-        except ValueError as e:
+        except (KeyError, ValueError) as e:
+            # (the listeners are kept in a set: removing one that is not there raises KeyError)
             log.exception('Failed to remove listener: %r', e)
